@@ -6,6 +6,7 @@ import (
 	"errors"
 	"fmt"
 	"os"
+	"syscall"
 	"time"
 
 	"github.com/spf13/afero"
@@ -43,6 +44,27 @@ type Fault func(k int, op string) (kind string)
 
 var ErrInjected = errors.New("injected fault")
 
+// fault kinds that make the call fail: "err" (a plain error value), and errno values as the
+// operating system reports them (wrapped in *os.PathError): "eagain", "eintr" (both "temporary"),
+// "enospc", "eio".
+func isErr(k string) bool { return errOf(k) != nil }
+
+func errOf(k string) error {
+	switch k {
+	case "err":
+		return ErrInjected
+	case "eagain":
+		return &os.PathError{Op: "write", Path: "efivarfs", Err: syscall.EAGAIN}
+	case "eintr":
+		return &os.PathError{Op: "write", Path: "efivarfs", Err: syscall.EINTR}
+	case "enospc":
+		return &os.PathError{Op: "write", Path: "efivarfs", Err: syscall.ENOSPC}
+	case "eio":
+		return syscall.EIO
+	}
+	return nil
+}
+
 type Fs struct {
 	Inner  afero.Fs
 	Events []Event
@@ -58,8 +80,8 @@ func (r *Fs) rec(e Event) (int, string) {
 	if r.Fault != nil {
 		kind = r.Fault(r.calls, e.Op)
 	}
-	if kind == "err" {
-		e.Err = ErrInjected.Error()
+	if isErr(kind) {
+		e.Err = errOf(kind).Error()
 	}
 	r.Events = append(r.Events, e)
 	return len(r.Events) - 1, kind
@@ -71,8 +93,8 @@ func (r *Fs) Name() string { return r.Inner.Name() }
 
 func (r *Fs) Create(name string) (afero.File, error) {
 	_, k := r.rec(Event{Op: "Create", Name: name})
-	if k == "err" {
-		return nil, ErrInjected
+	if isErr(k) {
+		return nil, errOf(k)
 	}
 	f, err := r.Inner.Create(name)
 	if err != nil {
@@ -82,22 +104,22 @@ func (r *Fs) Create(name string) (afero.File, error) {
 }
 func (r *Fs) Mkdir(name string, perm os.FileMode) error {
 	_, k := r.rec(Event{Op: "Mkdir", Name: name})
-	if k == "err" {
-		return ErrInjected
+	if isErr(k) {
+		return errOf(k)
 	}
 	return r.Inner.Mkdir(name, perm)
 }
 func (r *Fs) MkdirAll(path string, perm os.FileMode) error {
 	_, k := r.rec(Event{Op: "MkdirAll", Name: path})
-	if k == "err" {
-		return ErrInjected
+	if isErr(k) {
+		return errOf(k)
 	}
 	return r.Inner.MkdirAll(path, perm)
 }
 func (r *Fs) Open(name string) (afero.File, error) {
 	_, k := r.rec(Event{Op: "Open", Name: name})
-	if k == "err" {
-		return nil, ErrInjected
+	if isErr(k) {
+		return nil, errOf(k)
 	}
 	f, err := r.Inner.Open(name)
 	if err != nil {
@@ -107,8 +129,8 @@ func (r *Fs) Open(name string) (afero.File, error) {
 }
 func (r *Fs) OpenFile(name string, flag int, perm os.FileMode) (afero.File, error) {
 	_, k := r.rec(Event{Op: "OpenFile", Name: name, Flags: flag, Perm: perm})
-	if k == "err" {
-		return nil, ErrInjected
+	if isErr(k) {
+		return nil, errOf(k)
 	}
 	f, err := r.Inner.OpenFile(name, flag, perm)
 	if err != nil {
@@ -118,29 +140,29 @@ func (r *Fs) OpenFile(name string, flag int, perm os.FileMode) (afero.File, erro
 }
 func (r *Fs) Remove(name string) error {
 	_, k := r.rec(Event{Op: "Remove", Name: name})
-	if k == "err" {
-		return ErrInjected
+	if isErr(k) {
+		return errOf(k)
 	}
 	return r.Inner.Remove(name)
 }
 func (r *Fs) RemoveAll(path string) error {
 	_, k := r.rec(Event{Op: "RemoveAll", Name: path})
-	if k == "err" {
-		return ErrInjected
+	if isErr(k) {
+		return errOf(k)
 	}
 	return r.Inner.RemoveAll(path)
 }
 func (r *Fs) Rename(o, n string) error {
 	_, k := r.rec(Event{Op: "Rename", Name: o + "->" + n})
-	if k == "err" {
-		return ErrInjected
+	if isErr(k) {
+		return errOf(k)
 	}
 	return r.Inner.Rename(o, n)
 }
 func (r *Fs) Stat(name string) (os.FileInfo, error) {
 	_, k := r.rec(Event{Op: "Stat", Name: name})
-	if k == "err" {
-		return nil, ErrInjected
+	if isErr(k) {
+		return nil, errOf(k)
 	}
 	return r.Inner.Stat(name)
 }
@@ -166,15 +188,15 @@ type File struct {
 func (f *File) Close() error {
 	_, k := f.fs.rec(Event{Op: "f.Close", Name: f.name})
 	err := f.File.Close()
-	if k == "err" {
-		return ErrInjected
+	if isErr(k) {
+		return errOf(k)
 	}
 	return err
 }
 func (f *File) Read(p []byte) (int, error) {
 	_, k := f.fs.rec(Event{Op: "f.Read", Name: f.name, N: len(p)})
-	if k == "err" {
-		return 0, ErrInjected
+	if isErr(k) {
+		return 0, errOf(k)
 	}
 	if k == "short" && len(p) > 1 {
 		return f.File.Read(p[:len(p)/2])
@@ -183,8 +205,8 @@ func (f *File) Read(p []byte) (int, error) {
 }
 func (f *File) ReadAt(p []byte, off int64) (int, error) {
 	_, k := f.fs.rec(Event{Op: "f.ReadAt", Name: f.name, N: len(p)})
-	if k == "err" {
-		return 0, ErrInjected
+	if isErr(k) {
+		return 0, errOf(k)
 	}
 	return f.File.ReadAt(p, off)
 }
@@ -194,8 +216,8 @@ func (f *File) Seek(o int64, w int) (int64, error) {
 }
 func (f *File) Write(p []byte) (int, error) {
 	_, k := f.fs.rec(Event{Op: "f.Write", Name: f.name, Data: append([]byte{}, p...)})
-	if k == "err" {
-		return 0, ErrInjected
+	if isErr(k) {
+		return 0, errOf(k)
 	}
 	if k == "short" && len(p) > 0 {
 		n, err := f.File.Write(p[:len(p)/2])
@@ -205,8 +227,8 @@ func (f *File) Write(p []byte) (int, error) {
 }
 func (f *File) WriteAt(p []byte, off int64) (int, error) {
 	_, k := f.fs.rec(Event{Op: "f.WriteAt", Name: f.name, Data: append([]byte{}, p...)})
-	if k == "err" {
-		return 0, ErrInjected
+	if isErr(k) {
+		return 0, errOf(k)
 	}
 	return f.File.WriteAt(p, off)
 }
@@ -215,22 +237,22 @@ func (f *File) WriteAt(p []byte, off int64) (int, error) {
 func (f *File) WriteString(s string) (int, error) { return f.Write([]byte(s)) }
 func (f *File) Truncate(size int64) error {
 	_, k := f.fs.rec(Event{Op: "f.Truncate", Name: f.name, N: int(size)})
-	if k == "err" {
-		return ErrInjected
+	if isErr(k) {
+		return errOf(k)
 	}
 	return f.File.Truncate(size)
 }
 func (f *File) Sync() error {
 	_, k := f.fs.rec(Event{Op: "f.Sync", Name: f.name})
-	if k == "err" {
-		return ErrInjected
+	if isErr(k) {
+		return errOf(k)
 	}
 	return f.File.Sync()
 }
 func (f *File) Stat() (os.FileInfo, error) {
 	_, k := f.fs.rec(Event{Op: "f.Stat", Name: f.name})
-	if k == "err" {
-		return nil, ErrInjected
+	if isErr(k) {
+		return nil, errOf(k)
 	}
 	return f.File.Stat()
 }
